@@ -87,6 +87,10 @@ def w_hocur(ctx, rng, idx):
     d, m = int(rng.integers(1, 4)), int(rng.integers(1, 7))
     x = rng.uniform(-1.5, 1.5, size=(d, m))
     bl = rand_basis(rng, d, duplicates=(rng.random() < 0.3))
+    if idx % 8 == 3:  # data close to a common zero of odd basis functions: every entry of the transformed tensor is tiny in
+        x = x * float(10 ** rng.uniform(-7, -3))  # absolute terms (nothing in the statement depends on the scale of the data)
+        odd = [lambda i: tr.Identity(i), lambda i: tr.Sin(i, float(rng.uniform(0.5, 2))), lambda i: tr.Monomial(i, int(rng.integers(1, 4)))]
+        bl = [[odd[int(rng.integers(0, 3))](int(rng.integers(0, d))) for _ in range(int(rng.integers(1, 4)))] for _ in range(int(rng.integers(2, 4)))]
     if len(bl) < 2:
         bl.append([rand_function(rng, d) for _ in range(int(rng.integers(1, 4)))])
     rep, mult = int(rng.integers(1, 3)), int(rng.integers(3, 11))
